@@ -240,6 +240,11 @@ impl VHDLFormatter<'_> {
         span: TokenSpan,
         buffer: &mut Buffer,
     ) {
+        if assignment_statement.postponed {
+            // postponed
+            self.format_token_id(span.start_token, buffer);
+            buffer.push_whitespace();
+        }
         self.format_selected_assignment_head(&assignment_statement.assignment.rhs, buffer);
         self.format_target(&assignment_statement.assignment.target, buffer);
         buffer.push_whitespace();
@@ -929,6 +934,13 @@ with x(0) + 1 select foo(0) <= transport bar(1, 2) after 2 ns when 0 | 1, def wh
     #[test]
     fn format_matching_selected_assignments() {
         check_statement("with x select? foo <= bar when \"1-\", def when others;");
+    }
+
+    #[test]
+    fn format_postponed_selected_assignments() {
+        check_statement("postponed with x select foo <= bar when 1, def when others;");
+        check_statement("lbl: postponed with x select foo <= bar when 1, def when others;");
+        check_statement("postponed with x select? foo <= bar when \"1-\", def when others;");
     }
 
     #[test]
